@@ -28,15 +28,16 @@ NOT_THEOREMS = ['record-level premise of Props.C06.main (every typed record pars
 EXHAUSTIVE = {"quick": False, "thorough": False}
 
 
-def rw(RF, text, io=None):
-    return fsup.write_text(fsup.read_text(RF, text, io), io)
+def rw(RF, text, io=None, extra=()):
+    return fsup.write_text(fsup.read_text(RF, text, io, *extra), io)
 
 
 def run_impl(case):
     try:
         RF, classes = fsup.mk_register_file(case["regs"], io=case.get("io"))
-        y = rw(RF, codec.dec_str(case["x"]), case.get("io"))
-        y2 = rw(RF, y, case.get("io"))
+        extra = c04.text_linesize(case)
+        y = rw(RF, codec.dec_str(case["x"]), case.get("io"), extra)
+        y2 = rw(RF, y, case.get("io"), extra)
         return {"y": codec.enc_str(y), "y2": codec.enc_str(y2)}
     except Exception as e:
         return codec.enc_exc(e)
@@ -213,6 +214,8 @@ def random_case(rng):
     else:
         io = fsup.io_of(rng, [x])
     case = {"regs": regs, "x": codec.enc_str(x), "perts": sorted(perts)}
+    if rng.random() < 0.3:
+        case["linesize"] = rng.choice([2, 3, 16, 80])
     if io:
         case["io"] = io  # read from / written to paths on disk, in the class's declared encoding
     return case
